@@ -5,7 +5,7 @@
 From Coq Require Import String.
 From Coq Require Import List ZArith NArith Bool Arith Lia.
 Import ListNotations.
-Require Import PyLib PyLib2 Str Rx RxFacts RxSub TextModel TotalWords G_fn_sir2 RefJun RefJunEnc RefJunDec RefValue RefItem RefSub RefWord.
+Require Import PyLib PyLib2 Str Rx RxFacts RxSub TextModel TotalWords G_fn_sir2 RefJun RefStr RefBase RefSplit RefSub RefWord.
 Notation vstr := RefJun.vstr.
 
 Definition ascii (s : str) : Prop := Forall (fun c => c < 128)%N s.
@@ -117,7 +117,7 @@ Proof.
         destruct (IH os dd' (acc ++ [vstr (stitch3 w 0 ms reps)]) (vstr w) j8 j9 Hrest Hdd' eq_refl) as (d1 & j6' & j8' & j9' & El & Hd1).
         rewrite El. exists d1, j6', j8', j9'. split; [|exact Hd1]. cbn [map]. now rewrite <- app_assoc. }
   destruct (Hloop words ws d [] VNone VNone VNone Hwa Hd Eom) as (d1 & j6' & j8' & j9' & El & Hd1). rewrite El. cbn [PyLib.bind app].
-  change (VStr [32%Z]) with (vstr [32%N]). rewrite py_join_vstr. cbn [PyLib.bind]. rewrite RefJunEnc.py_add_vstr. cbn [PyLib.bind]. rewrite RefJunEnc.py_add_vstr. cbn [PyLib.bind PyLib.bindS call].
+  change (VStr [32%Z]) with (vstr [32%N]). rewrite py_join_vstr. cbn [PyLib.bind]. rewrite RefStr.py_add_vstr. cbn [PyLib.bind]. rewrite RefStr.py_add_vstr. cbn [PyLib.bind PyLib.bindS call].
   exists d1. split; [|exact Hd1]. now rewrite <- app_assoc.
 Qed.
 End W.
